@@ -346,6 +346,47 @@ Theorem C09_penalty_row_is_iterated_difference : forall (A : Arith) (F : OField 
 Proof. intros A F knat order p nspl c row H. exact (C09_Stencil.finitediff_row_is_iterated_difference F knat order p nspl c row H). Qed.
 
 (* (both statements are unconditional identities: there is no hypothesis whose satisfiability would need an example) *)
+
+From PS Require C09_X16Link.
+(* ... the k-th derivative, every k <= degree: in the fully supported range the k-th derivative formula (BSpline.dBfun k, the analytic
+   derivative by C02) of the spline with coefficients c_a .. c_{a+M} of degree n is the spline of degree n-k with coefficients
+   citer k n c (de Boor's recursion c'_i = n (c_i - c_{i-1}) / (t_{i+n} - t_i), dropped when the knot difference vanishes) on the
+   indices a+k .. a+M; non-decreasing knots, any ordered field ... *)
+Theorem C09_kth_derivative_is_difference_spline : forall (A : Arith) (F : OField A) (kn : Z -> T A) (nknots : Z),
+  (forall i j, (0 <= i)%Z -> (i <= j)%Z -> (j < nknots)%Z -> OFieldKit.le (kn i) (kn j)) ->
+  forall (side : bool) (x : T A) (l : Z), (0 <= l)%Z -> (l + 1 < nknots)%Z -> in_piece kn side l x ->
+  forall (k n : nat) (c : Z -> T A) (a : Z) (M : nat),
+  (k <= n)%nat -> (k <= M)%nat -> (0 <= a)%Z -> (a + Z.of_nat M + Z.of_nat n + 1 < nknots)%Z ->
+  (a + Z.of_nat n <= l)%Z -> (l <= a + Z.of_nat M)%Z ->
+  sum_range (fun i => mul (c i) (dBfun kn side k n i x)) a (S M) =
+  sum_range (fun i => mul (citer kn k n c i) (Bfun kn side (n - k) i x)) (a + Z.of_nat k) (S M - k).
+Proof. intros A F kn nknots Hm side x l Hl0 Hl1 Hp. exact (deriv_k_is_difference_spline F kn nknots Hm side x l Hl0 Hl1 Hp). Qed.
+
+(* ... and those coefficients are what the penalty matrix of order k computes from c (C09_penalty_row_is_iterated_difference): for
+   knots whose differences do not vanish and a field in which 1..n are invertible,  citer k n c (j + k) = D^k c (j).  So the
+   penalty term  |D c|^2  of penalty order k is the sum of squares of the B-spline coefficients of the k-th derivative. *)
+Theorem C09_derivative_coefficients_are_the_penalty_stencil : forall (A : Arith) (F : OField A) (knat : nat -> T A) (n : nat) (c : Z -> T A),
+  (forall i m : nat, (1 <= m)%nat -> sub (knat (i + m)%nat) (knat i) <> zero) ->
+  (forall m : nat, (1 <= m <= n)%nat -> ofZ (Z.of_nat m) <> @zero A) ->
+  forall k j, (k <= n)%nat ->
+  citer (C09_X16Link.knZ knat) k n c (Z.of_nat (j + k)) = C09_Stencil.dcoef knat n k (C09_X16Link.cnat c) j.
+Proof. intros A F knat n c Hs Hc. exact (C09_X16Link.citer_is_stencil F knat n c Hs Hc). Qed.
+
+(* the hypotheses are satisfiable: exact rationals, knots 0,1,2,..., any degree *)
+Lemma QcA_ofZ_inj : forall a b : Z, @ofZ QcA a = @ofZ QcA b -> a = b.
+Proof.
+  intros a b H. cbn in H. apply (f_equal Qcanon.this) in H. cbn [Qcanon.this Qcanon.Q2Qc] in H.
+  apply QArith_base.inject_Z_injective.
+  rewrite <- (Qreduction.Qred_correct (QArith_base.inject_Z a)), <- (Qreduction.Qred_correct (QArith_base.inject_Z b)), H. reflexivity.
+Qed.
+Example C09_stencil_hypotheses_satisfiable : forall n : nat,
+  (forall i m : nat, (1 <= m)%nat -> @sub QcA (@ofZ QcA (Z.of_nat (i + m))) (@ofZ QcA (Z.of_nat i)) <> @zero QcA) /\
+  (forall m : nat, (1 <= m <= n)%nat -> @ofZ QcA (Z.of_nat m) <> @zero QcA).
+Proof.
+  intro n. split.
+  - intros i m Hm Hz. apply (sub_zero_eq QcA_OField) in Hz. apply QcA_ofZ_inj in Hz. lia.
+  - intros m Hm Hz. change (@zero QcA) with (@ofZ QcA 0%Z) in Hz. apply QcA_ofZ_inj in Hz. lia.
+Qed.
 Print Assumptions C09_normal_eq_minimise.
 Print Assumptions C09_fit_minimises.
 Print Assumptions C09_penalty_is_DtD.
@@ -367,3 +408,5 @@ Print Assumptions C09_derivative_is_difference_spline.
 Print Assumptions C09_divided_diffs_order1.
 Print Assumptions C09_penalty_stencil_is_iterated_difference.
 Print Assumptions C09_penalty_row_is_iterated_difference.
+Print Assumptions C09_kth_derivative_is_difference_spline.
+Print Assumptions C09_derivative_coefficients_are_the_penalty_stencil.
